@@ -301,7 +301,8 @@ def specs(prop='C03'):
     out.append(Fragment('view:FSTView._fixup_item_indices', prop, 'view.name_index',
                         [dict(m='name', stop=s_, field=fld, found=k) for s_ in ('None', 'int')
                          for fld in ('body', '_body', 'orelse') for k in ('child', 'deep', 'none')], run_name,
-                        min_obligations=3, notes='str index branch; find_def under an assumed contract'))
+                        min_obligations=3, native=('k_view', 'replay_name_index'),
+                        notes='str index branch; find_def under an assumed contract'))
     stops = ('None', 'int')
     simple = ['_base_indices', '__len__', 'append', 'extend', 'prepend', 'prextend', 'replace', 'remove', 'cut', 'copy']
     for m in simple:
@@ -463,3 +464,33 @@ def entry_specs(prop='C03'):
     out.append(Fragment('fst:_swizzle_getput_params', prop, 'entry.swizzle',
                         [dict(start=a, stop=b, field=c) for a in vals for b in vals for c in (None, 'body')], run_swizzle))
     return out
+
+
+def replay_name_index(payload):
+    """native: search a failing input of view['name'] on real trees - every window of a body of 4 defs x every name"""
+    from fst import FST
+    src = 'def a(): pass\ndef b(): pass\nclass c: pass\ndef d(): pass'
+    names = ['a', 'b', 'c', 'd']
+    for docstr in (False, True):
+        body_src = ('"""doc"""\n' if docstr else '') + src
+        for field in ('body', '_body'):
+            for start in range(0, 4):
+                for stop in range(start + 1, 5):
+                    for nm in names:
+                        root = FST(body_src, 'exec')
+                        view = getattr(root, field)[start:stop]
+                        off = 1 if (docstr and field == 'body') else 0
+                        elems = names[max(0, start - off):max(0, stop - off)] if field == 'body' else names[start:stop]
+                        call = f"FST({body_src!r}).{field}[{start}:{stop}][{nm!r}]"
+                        try:
+                            got = view[nm]
+                        except IndexError:
+                            if nm in elems:
+                                return {'reproduced': True, 'call': call, 'observed': 'IndexError', 'expected': nm}
+                            continue
+                        except Exception as e:
+                            return {'reproduced': True, 'call': call, 'observed': repr(e)}
+                        gname = getattr(got.a, 'name', None)
+                        if nm not in elems or gname != nm:
+                            return {'reproduced': True, 'call': call, 'observed': gname, 'expected': nm if nm in elems else 'IndexError'}
+    return {'reproduced': False, 'note': 'no failing (window, name) found'}
